@@ -126,21 +126,54 @@ func lensRect(r *rand.Rand, ctr s2.Point) (s2.Rect, s2.Cell, []s2.Point, bool) {
 	if m.Lat < 0 {
 		sgn = -1
 	}
-	inner := m.Lat.Radians() - sgn*h*(0.05+0.85*r.Float64())
-	outer := m.Lat.Radians() + sgn*h*(0.5+3*r.Float64())
-	outer = math.Max(-math.Pi/2, math.Min(math.Pi/2, outer))
-	halfw := 0.5 * s1.IntervalFromPointPair(la.Lng.Radians(), lb.Lng.Radians()).Length() * (0.7 + 0.8*r.Float64())
-	if halfw > 3 {
-		halfw = 3
+	span := s1.IntervalFromPointPair(la.Lng.Radians(), lb.Lng.Radians())
+	var rc s2.Rect
+	var pts []s2.Point
+	switch r.Intn(3) {
+	case 0: // the rectangle's constant-latitude side cuts the bulge from the poleward side
+		inner := m.Lat.Radians() - sgn*h*(0.05+0.85*r.Float64())
+		outer := m.Lat.Radians() + sgn*h*(0.5+3*r.Float64())
+		outer = math.Max(-math.Pi/2, math.Min(math.Pi/2, outer))
+		halfw := math.Min(3, 0.5*span.Length()*(0.7+0.8*r.Float64()))
+		rc = s2.Rect{Lat: r1.Interval{Lo: math.Min(inner, outer), Hi: math.Max(inner, outer)},
+			Lng: s1.IntervalFromEndpoints(math.Remainder(m.Lng.Radians()-halfw, 2*math.Pi), math.Remainder(m.Lng.Radians()+halfw, 2*math.Pi))}
+		for _, f := range []float64{-0.1, -0.03, 0, 0.03, 0.1} {
+			pts = append(pts, s2.PointFromLatLng(s2.LatLng{Lat: s1.Angle(inner + sgn*h*1e-3), Lng: s1.Angle(math.Remainder(m.Lng.Radians()+f*halfw, 2*math.Pi))}))
+		}
+	case 1: // the rectangle holds all four cell vertices but not the bulge of the edge between two of them
+		lim := math.Max(math.Abs(la.Lat.Radians()), math.Abs(lb.Lat.Radians())) + h*(0.1+0.8*r.Float64())
+		lo, hi := math.Inf(1), math.Inf(-1)
+		lng := s1.EmptyInterval()
+		for j := 0; j < 4; j++ {
+			ll := s2.LatLngFromPoint(cell.Vertex(j))
+			lo, hi = math.Min(lo, ll.Lat.Radians()), math.Max(hi, ll.Lat.Radians())
+			lng = lng.AddPoint(ll.Lng.Radians())
+		}
+		marg := (hi - lo) * (0.01 + r.Float64())
+		if sgn > 0 {
+			rc = s2.Rect{Lat: r1.Interval{Lo: math.Max(-math.Pi/2, lo-marg), Hi: math.Min(math.Pi/2, lim)}, Lng: lng.Expanded(lng.Length() * 0.1 * r.Float64())}
+		} else {
+			rc = s2.Rect{Lat: r1.Interval{Lo: math.Max(-math.Pi/2, -lim), Hi: math.Min(math.Pi/2, hi+marg)}, Lng: lng.Expanded(lng.Length() * 0.1 * r.Float64())}
+		}
+	default: // a rectangle wider than 180 degrees whose excluded longitudes lie strictly between the cell's vertices
+		lo, hi := math.Inf(1), math.Inf(-1)
+		lng := s1.EmptyInterval()
+		for j := 0; j < 4; j++ {
+			ll := s2.LatLngFromPoint(cell.Vertex(j))
+			lo, hi = math.Min(lo, ll.Lat.Radians()), math.Max(hi, ll.Lat.Radians())
+			lng = lng.AddPoint(ll.Lng.Radians())
+		}
+		if lng.Length() > 2 || lng.Length() == 0 {
+			return rc, cell, nil, false
+		}
+		g := s2.LatLngFromPoint(cell.Center()).Lng.Radians()
+		w := lng.Length() * (0.02 + 0.2*r.Float64())
+		marg := (hi - lo) * (0.05 + r.Float64())
+		rc = s2.Rect{Lat: r1.Interval{Lo: math.Max(-math.Pi/2, lo-marg), Hi: math.Min(math.Pi/2, hi+marg)},
+			Lng: s1.IntervalFromEndpoints(math.Remainder(g+w, 2*math.Pi), math.Remainder(g-w, 2*math.Pi))}
 	}
-	rc := s2.Rect{Lat: r1.Interval{Lo: math.Min(inner, outer), Hi: math.Max(inner, outer)},
-		Lng: s1.IntervalFromEndpoints(math.Remainder(m.Lng.Radians()-halfw, 2*math.Pi), math.Remainder(m.Lng.Radians()+halfw, 2*math.Pi))}
 	if !rc.IsValid() || rc.IsEmpty() {
 		return rc, cell, nil, false
-	}
-	var pts []s2.Point
-	for _, f := range []float64{-0.1, -0.03, 0, 0.03, 0.1} {
-		pts = append(pts, s2.PointFromLatLng(s2.LatLng{Lat: s1.Angle(inner + sgn*h*1e-3), Lng: s1.Angle(math.Remainder(m.Lng.Radians()+f*halfw, 2*math.Pi))}))
 	}
 	return rc, cell, pts, true
 }
